@@ -55,6 +55,12 @@ impl GroupLocalProcessor {
     }
 
     fn should_merge(&self, first: &VariableAssignment, next: &mut VariableAssignment) -> bool {
+        // the merged statement has the keyword of the first one: a `local` merged into a
+        // `const` could not be assigned anymore
+        if first.get_assignment_kind() != next.get_assignment_kind() {
+            return false;
+        }
+
         let first_value_count = first.values_len();
 
         // when the first statement does not have exactly one value per variable, appending
